@@ -161,7 +161,23 @@ FAIR_MUTS = {
  'fair_scc_first_of_F': ('kripke.py', "            if len(scc) == 1 or v not in self.next(v):", "            if len(scc) == 1 or v not in self.next(len(scc)):", ['Kripke.get_fair_states.<locals>.is_a_fair_SCC']),
 }
 
-BY_PROPERTY = {'C13': [GRAPH_MUTS], 'C14': [KRIPKE_MUTS], 'C01': [CTL_MUTS], 'C05': [REWRITE_MUTS], 'C16': [BDD_MUTS], 'C03': [CTLS_MUTS], 'C07': [CTLS_MUTS], 'C15': [FAIR_MUTS], 'C02': [LTL_MUTS], 'C10': [PARSER_MUTS]}
+BDD_OP_MUTS = {
+ 'inv_children_swapped': (B, "        r_cache[self] = BDDNonTerminalNode(self.var,\n                                           self.low.__invert__(r_cache),\n                                           self.high.__invert__(r_cache))", "        r_cache[self] = BDDNonTerminalNode(self.var,\n                                           self.high.__invert__(r_cache),\n                                           self.low.__invert__(r_cache))", ['BDDNonTerminalNode.__invert__']),
+ 'inv_high_not_inverted': (B, "                                           self.high.__invert__(r_cache))", "                                           self.high)", ['BDDNonTerminalNode.__invert__']),
+ 'inv_terminal_identity': (B, "        r_cache[self] = BDDTerminalNode(not self.value)", "        r_cache[self] = BDDTerminalNode(self.value)", ['BDDTerminalNode.__invert__']),
+ 'inv_cache_wrong_key': (B, "        r_cache[self] = BDDTerminalNode(not self.value)\n\n        return r_cache[self]", "        res = BDDTerminalNode(not self.value)\n        r_cache[res] = res\n\n        return res", ['BDDTerminalNode.__invert__']),
+ 'restrict_value_swapped': (B, "        if value:\n            return cache_restrict(bdd.high, var, value, r_cache)\n        else:\n            return cache_restrict(bdd.low, var, value, r_cache)", "        if value:\n            return cache_restrict(bdd.low, var, value, r_cache)\n        else:\n            return cache_restrict(bdd.high, var, value, r_cache)", ['compute_restrict']),
+ 'restrict_test_flipped': (B, "    if bdd.var == var:\n        if value:", "    if bdd.var != var:\n        if value:", ['compute_restrict']),
+ 'apply_sons_swapped': (B, "    low = apply(operator, A.low, B, ordering, r_cache)\n    high = apply(operator, A.high, B, ordering, r_cache)\n    return BDDNonTerminalNode(A.var, low, high)", "    low = apply(operator, A.high, B, ordering, r_cache)\n    high = apply(operator, A.low, B, ordering, r_cache)\n    return BDDNonTerminalNode(A.var, low, high)", ['BDDsons_and_BDD']),
+ 'apply_wrong_var': (B, "    low = apply(operator, A, B.low, ordering, r_cache)\n    high = apply(operator, A, B.high, ordering, r_cache)\n    return BDDNonTerminalNode(B.var, low, high)", "    low = apply(operator, A, B.low, ordering, r_cache)\n    high = apply(operator, A, B.low, ordering, r_cache)\n    return BDDNonTerminalNode(B.var, low, high)", ['BDD_and_BDDsons']),
+ 'apply_both_mixed': (B, "    low = apply(operator, A.low, B.low, ordering, r_cache)\n    high = apply(operator, A.high, B.high, ordering, r_cache)", "    low = apply(operator, A.low, B.high, ordering, r_cache)\n    high = apply(operator, A.high, B.low, ordering, r_cache)", ['BDDsons_and_BDDsons']),
+ 'compute_operands_swapped': (B, "            return BDDTerminalNode(operator(A.value, B.value))", "            return BDDTerminalNode(operator(B.value, A.value))", ['compute']),
+ 'compute_same_var_one_side': (B, "    if A.var == B.var:\n        return BDDsons_and_BDDsons(operator, A, B, ordering, r_cache)", "    if A.var == B.var:\n        return BDDsons_and_BDDsons(operator, A, A, ordering, r_cache)", ['compute']),
+ 'apply_cache_row_shared': (B, "    if A not in r_cache:\n        r_cache[A] = dict()", "    if A not in r_cache:\n        r_cache[A] = r_cache.get(B, dict())", ['apply']),
+ 'apply_cache_transposed': (B, "    if B in r_cache[A]:\n        return r_cache[A][B]", "    if B in r_cache[A] and A in r_cache[B]:\n        return r_cache[B][A]", ['apply']),
+}
+
+BY_PROPERTY = {'C13': [GRAPH_MUTS], 'C14': [KRIPKE_MUTS], 'C01': [CTL_MUTS], 'C05': [REWRITE_MUTS], 'C16': [BDD_MUTS], 'C03': [CTLS_MUTS], 'C07': [CTLS_MUTS], 'C15': [FAIR_MUTS], 'C17': [BDD_OP_MUTS], 'C02': [LTL_MUTS], 'C10': [PARSER_MUTS]}
 # equivalent mutants (the change does not alter behaviour) are excluded from the requirement
 EQUIVALENT = {'sub_S0_all'}
 
